@@ -57,7 +57,9 @@ VCS_SUBCOMMANDS_BY_NAME = {
         'push_tag'      : "git push {remote} --follow-tags {tag} HEAD",
         'push'          : "git push {remote} HEAD",
         'show_remotes'  : "git config --get remote.origin.url",
-        'ls_branches'   : "git branch -vv",
+        # NOTE: No commit subject in the output (as in "git branch -vv"), a subject
+        #   such as "[ci/skip] bump version" would be mistaken for "[remote/branch]".
+        'ls_branches'   : "git branch --format='%(HEAD) %(refname:short) %(objectname:short) [%(upstream:short)]'",
     },
     'hg': {
         'is_usable'     : "hg root",
